@@ -422,6 +422,8 @@ impl Database {
     /// immediately when `sync_bg_tasks` is called.
     pub fn bg_sleep(&self, dur: Duration) {
         let (m, cv) = &self.0.bg_sync;
+        #[cfg(anydb_verif)]
+        verif_tap::lock("bg_sync", 0, true);
         let mut g = m.lock();
         if !*g {
             cv.wait_for(&mut g, dur);
@@ -470,13 +472,21 @@ impl Database {
     pub fn sync_bg_tasks(&self) -> Result<()> {
         {
             let (m, cv) = &self.0.bg_sync;
+            #[cfg(anydb_verif)]
+            verif_tap::lock("bg_sync", 0, true);
             *m.lock() = true;
             cv.notify_all();
         }
+        #[cfg(anydb_verif)]
+        verif_tap::lock("bg_tasks", 0, true);
         let handles: Vec<_> = self.0.bg_tasks.lock().drain(..).collect();
         for handle in handles {
+            #[cfg(anydb_verif)]
+            verif_tap::lock("join", 0, false);
             handle.join().unwrap()?;
         }
+        #[cfg(anydb_verif)]
+        verif_tap::lock("bg_sync", 0, true);
         *self.0.bg_sync.0.lock() = false;
         Ok(())
     }
@@ -754,6 +764,15 @@ impl Database {
             st(&self.0.regions),
             st(&self.0.mmap),
             st(&self.0.file),
+        ]
+    }
+
+    /// Verification hook: whether the background-task mutexes are currently held by anyone
+    /// (bg_tasks, bg_sync): 0 = free, 2 = locked.
+    pub fn verif_bg_lock_state(&self) -> [u8; 2] {
+        [
+            if self.0.bg_tasks.is_locked() { 2 } else { 0 },
+            if self.0.bg_sync.0.is_locked() { 2 } else { 0 },
         ]
     }
 }
